@@ -558,21 +558,26 @@ Definition sess_ok (ss : sstate) (s : state) : Prop :=
 
 Record Inv (E : option string) (ss : sstate) (s : state) : Prop := mkInv {
   inv_attr : attr_inv s;
-  inv_hist : hist_engine E (hist ss);
+  inv_hist : multi_mode fa = true \/ hist_engine E (hist ss);
   inv_act : match active ss with
             | None => realc s /\ config s = []
             | Some (e, c) => homog e s /\ in_hist e c (hist ss) = true
                              /\ (forall k, c = Some k -> assoc (f_conn_key fa) (config s) <> None)
             end;
   inv_cfg : forall k, assoc (f_conn_key fa) (config s) = Some k -> exists e', in_hist e' (Some k) (hist ss) = true;
+  inv_cfgm : multi_mode fa = true ->
+             match active ss with
+             | Some (e, _) => forall k, assoc (f_conn_key fa) (config s) = Some k -> in_hist e (Some k) (hist ss) = true
+             | None => True
+             end;
   inv_sess : sess_ok ss s
 }.
 
 Lemma Inv_init : Inv None sinit init_state.
 Proof.
   constructor; cbn.
-  - apply attr_inv_init. - reflexivity. - split; [apply realc_init | reflexivity].
-  - intros k H; discriminate. - split; [exact I | intros e e0 c0 H; discriminate].
+  - apply attr_inv_init. - right; reflexivity. - split; [apply realc_init | reflexivity].
+  - intros k H; discriminate. - intros _; exact I. - split; [exact I | intros e e0 c0 H; discriminate].
 Qed.
 
 Lemma realc_attr_inv : forall s, realc s -> attr_inv s.
@@ -635,7 +640,8 @@ Proof.
 Qed.
 
 Lemma step_activate : forall E ss s e c kv,
-  Inv E ss s -> act_ok fa e s && kv_wf fa kv = true -> (match E with Some e0 => e = e0 | None => True end) ->
+  Inv E ss s -> act_ok fa e s && kv_wf fa kv = true ->
+  (multi_mode fa = true \/ match E with Some e0 => e = e0 | None => True end) ->
   forall ev, (ev = Activate e c kv \/ ev = CtxEnter e c kv) ->
   accept fa en ss ev (fst (activate e c kv s)) (config (snd (activate e c kv s))) = true
   /\ Inv (Some e) (snext ss ev) (snd (activate e c kv s)).
@@ -653,8 +659,10 @@ Proof.
     destruct Hev; subst ev; cbn; exact Hgoal.
   - rewrite Hsn. constructor; cbn [active hist].
     + exact Hai.
-    + cbn. intros e' c' Hin. apply in_app_or in Hin as [Hin | [Hin | []]].
-      * pose proof (inv_hist _ _ _ HI) as Hh0. destruct E as [e0|]; cbn in Hh0.
+    + destruct (inv_hist _ _ _ HI) as [Hm | Hh0]; [left; exact Hm|].
+      destruct HE as [Hm | HE]; [left; exact Hm|]. right.
+      cbn. intros e' c' Hin. apply in_app_or in Hin as [Hin | [Hin | []]].
+      * destruct E as [e0|]; cbn in Hh0.
         -- subst e. now apply (Hh0 _ _ Hin).
         -- rewrite Hh0 in Hin. destruct Hin.
       * now inversion Hin.
@@ -665,6 +673,11 @@ Proof.
         exists e. apply in_hist_last.
       * rewrite (store_config_noconn kv s Hwf) in Hk. destruct (f_reset_config fa); [discriminate|].
         destruct (inv_cfg _ _ _ HI _ Hk) as [e' He']. exists e'. now apply in_hist_snoc.
+    + intros Hm k Hk. rewrite Hcfg in Hk. destruct c as [k0|].
+      * rewrite (store_config_conn (Some k0) kv s k0 Hwf eq_refl) in Hk. inversion Hk; subst. apply in_hist_last.
+      * rewrite (store_config_noconn kv s Hwf) in Hk.
+        unfold multi_mode in Hm. apply andb_true_iff in Hm as [Hm _]. apply andb_true_iff in Hm as [_ Hm].
+        rewrite Hm in Hk. discriminate.
     + apply (sess_ok_snoc ss s); [exact Hse | exact (inv_sess _ _ _ HI)].
 Qed.
 
@@ -692,6 +705,7 @@ Proof.
     + exact (inv_hist _ _ _ HI).
     + split; assumption.
     + intros k Hk. rewrite Hc in Hk. discriminate.
+    + intros _; exact I.
     + apply (sess_ok_same ss _ s); [reflexivity | exact Hse | exact (inv_sess _ _ _ HI)].
 Qed.
 
@@ -713,6 +727,7 @@ Proof.
       * exact (inv_hist _ _ _ HI).
       * rewrite Hac. split; [exact Hh' | split; [exact Hin|]]. rewrite Hk1. exact Hc.
       * rewrite Hk1. exact (inv_cfg _ _ _ HI).
+      * rewrite Hk1. exact (inv_cfgm _ _ _ HI).
       * apply (sess_ok_same ss ss s); [reflexivity | exact Hk2 | exact (inv_sess _ _ _ HI)].
   - destruct Hact as [Hr Hcfg].
     destruct (real_view fm p s Hr) as [Ho [Hr' [Hf1 [Hf2 Hf3]]]].
@@ -723,6 +738,7 @@ Proof.
       * exact (inv_hist _ _ _ HI).
       * rewrite Hac. split; [exact Hr' | congruence].
       * rewrite Hf1. exact (inv_cfg _ _ _ HI).
+      * rewrite Hf1. exact (inv_cfgm _ _ _ HI).
       * apply (sess_ok_same ss ss s); [reflexivity | exact Hf2 | exact (inv_sess _ _ _ HI)].
 Qed.
 
@@ -745,6 +761,7 @@ Proof.
     + exact (inv_hist _ _ _ HI).
     + destruct (active ss) as [[e' c]|]; exact Hact.
     + exact (inv_cfg _ _ _ HI).
+    + exact (inv_cfgm _ _ _ HI).
     + exact (inv_sess _ _ _ HI).
 Qed.
 
@@ -762,6 +779,7 @@ Proof.
     + destruct H as [[A [B [C D]]] G]. split; [|congruence].
       unfold realc. rewrite Ht, Hq, Hts, Hsb. exact (conj A (conj B (conj C D))).
   - rewrite Hc. exact (inv_cfg _ _ _ HI).
+  - rewrite Hc. exact (inv_cfgm _ _ _ HI).
   - exact Hs.
 Qed.
 
@@ -806,9 +824,23 @@ Proof.
   - destruct Hact as [Hh [Hin Hc]]. pose proof Hh as [Ht [Hq _]].
     unfold Activate.import_sql. rewrite Hq, Hsr.
     destruct (inv_sess _ _ _ HI) as [Hse Hbc].
-    assert (HE : E = Some e) by exact (hist_engine_in _ _ _ _ (inv_hist _ _ _ HI) Hin).
-    assert (Hsame : forall e0 c0, sess_valid ss e0 c0 -> e0 = e).
-    { intros e0 c0 Hv. pose proof (sess_valid_engine _ _ _ _ (inv_hist _ _ _ HI) Hv) as H. rewrite HE in H. now inversion H. }
+    (* what the two modes give: the stored connection was given to this engine; a live / cached session that is
+       returned is this engine's *)
+    assert (Hconn : forall k, assoc (f_conn_key fa) (config s) = Some k -> in_hist e (Some k) (hist ss) = true).
+    { intros k Hk. destruct (inv_hist _ _ _ HI) as [Hm | Hh0].
+      - pose proof (inv_cfgm _ _ _ HI Hm) as H. rewrite Hac in H. exact (H k Hk).
+      - destruct (inv_cfg _ _ _ HI _ Hk) as [e' He'].
+        pose proof (hist_engine_in _ _ _ _ Hh0 He') as H1. pose proof (hist_engine_in _ _ _ _ Hh0 Hin) as H2.
+        rewrite H1 in H2. inversion H2; subst e'. exact He'. }
+    assert (Hlive : forall e0 c0, sess_valid ss e0 c0 -> String.eqb e0 e || f_singleton_global fa = true -> e0 = e).
+    { intros e0 c0 Hv Hb. destruct (inv_hist _ _ _ HI) as [Hm | Hh0].
+      - unfold multi_mode in Hm. apply andb_true_iff in Hm as [Hm _]. apply andb_true_iff in Hm as [Hm _].
+        apply negb_true_iff in Hm. rewrite Hm, orb_false_r in Hb. now apply String.eqb_eq in Hb.
+      - pose proof (sess_valid_engine _ _ _ _ Hh0 Hv) as H1. pose proof (hist_engine_in _ _ _ _ Hh0 Hin) as H2.
+        rewrite H1 in H2. now inversion H2. }
+    assert (Hlive1 : forall e0 c0, sess_valid ss e0 c0 -> hist_engine E (hist ss) -> e0 = e).
+    { intros e0 c0 Hv Hh0. pose proof (sess_valid_engine _ _ _ _ Hh0 Hv) as H1. pose proof (hist_engine_in _ _ _ _ Hh0 Hin) as H2.
+      rewrite H1 in H2. now inversion H2. }
     (* the creation of a new session of engine e from the stored configuration *)
     assert (Hcreate : forall s0, Inv E ss s0 -> config s0 = config s ->
               accept fa en ss GetOrCreate (fst (remember fa e (create_session fa en e s0)))
@@ -830,8 +862,7 @@ Proof.
         { unfold c'. destruct (mem e (f_noconn fa)) eqn:Hn.
           - right; split; [exact Hn | split; [reflexivity | exists c; exact Hin]].
           - left. destruct (assoc (f_conn_key fa) (config s)) as [k|] eqn:Hk.
-            + destruct (inv_cfg _ _ _ HI _ Hk) as [e' He'].
-              pose proof (hist_engine_in _ _ _ _ (inv_hist _ _ _ HI) He') as HE'. rewrite HE in HE'. inversion HE'; subst e'. exact He'.
+            + exact (Hconn k eq_refl).
             + destruct c as [k|]; [exfalso; now apply (Hc k eq_refl)|]. exact Hin. }
         assert (HI1 : Inv E ss (set_sess s0 (SLive e c'))).
         { apply (Inv_sessall E ss s0); try reflexivity; [exact HI0|].
@@ -840,17 +871,23 @@ Proof.
         { intros e0 c0 H. cbn in H. inversion H; subst. exact Hv. }
         rewrite Ho. cbn [fst]. split; [now apply (accept_session ss e c) | exact HI2]. }
     destruct (if mem e (f_cached fa) then assoc e (bcache s) else None) as [[e0 c0]|] eqn:Hcache.
-    + (* the Builder's cached session *)
-      assert (Hv : sess_valid ss e0 c0).
-      { destruct (mem e (f_cached fa)); [|discriminate]. exact (Hbc _ _ _ Hcache). }
-      pose proof (Hsame _ _ Hv) as He0. subst e0. cbn [fst snd].
+    + (* the Builder's cached session: only possible in the one-engine mode *)
+      destruct (mem e (f_cached fa)) eqn:Hmc; [|discriminate].
+      pose proof (Hbc _ _ _ Hcache) as Hv.
+      assert (He0 : e0 = e).
+      { destruct (inv_hist _ _ _ HI) as [Hm | Hh0]; [|exact (Hlive1 _ _ Hv Hh0)].
+        unfold multi_mode in Hm. apply andb_true_iff in Hm as [_ Hm].
+        destruct (f_cached fa); [unfold mem in Hmc; cbn in Hmc; discriminate | discriminate]. }
+      subst e0. cbn [fst snd].
       split; [now apply (accept_session ss e c) | exact HI].
     + destruct (sess s) as [|e0 c0|] eqn:Hs.
       * apply (Hcreate s HI eq_refl).
-      * pose proof (Hsame _ _ Hse) as He0. subst e0. rewrite String.eqb_refl. cbn [orb].
-        destruct (Inv_remember E ss e (GSession e c0, s) HI) as [Ho HI2].
-        { intros e1 c1 H. cbn in H. inversion H; subst. exact Hse. }
-        rewrite Ho. cbn [fst]. split; [now apply (accept_session ss e c) | exact HI2].
+      * destruct (String.eqb e0 e || f_singleton_global fa) eqn:Hb.
+        -- pose proof (Hlive _ _ Hse Hb) as He0. subst e0.
+           destruct (Inv_remember E ss e (GSession e c0, s) HI) as [Ho HI2].
+           { intros e1 c1 H. cbn in H. inversion H; subst. exact Hse. }
+           rewrite Ho. cbn [fst]. split; [now apply (accept_session ss e c) | exact HI2].
+        -- apply (Hcreate s HI eq_refl).
       * cbn [fst snd]. split; [unfold accept; cbn [snext]; rewrite Hac; cbn; rewrite Hse; reflexivity | exact HI].
   - destruct Hact as [Hr Hcfg].
     destruct (import_sql_real s Hr) as [Ho [Hr' [Hf1 [Hf2 Hf3]]]].
@@ -860,6 +897,7 @@ Proof.
       - now apply realc_attr_inv. - exact (inv_hist _ _ _ HI).
       - rewrite Hac. split; [exact Hr' | congruence].
       - rewrite Hf1. exact (inv_cfg _ _ _ HI).
+      - intros _. rewrite Hac. exact I.
       - apply (sess_ok_same ss ss s); [reflexivity | exact Hf2 | exact (inv_sess _ _ _ HI)]. }
     unfold accept. cbn [snext]. rewrite Hac.
     unfold Activate.base_view. destruct (installed en) eqn:Hi; cbn [fst snd].
@@ -868,16 +906,16 @@ Proof.
 Qed.
 
 Lemma step_inv : forall E ss s ev,
-  Inv E ss s -> step_ok fa en ss s ev = true -> single_ok E ev ->
+  Inv E ss s -> step_ok fa en ss s ev = true -> (multi_mode fa = true \/ single_ok E ev) ->
   accept fa en ss ev (fst (step s ev)) (config (snd (step s ev))) = true
   /\ Inv (next_engine E ev) (snext ss ev) (snd (step s ev)).
 Proof.
   intros E ss s ev HI Hok Hs.
   destruct ev as [e c kv | | e c kv | k | | fm p | e]; cbn [Activate.step step_ok] in *;
     unfold next_engine, single_ok in *; cbn [engine_of] in *.
-  - apply (step_activate E ss s e c kv HI Hok); [destruct E; auto | left; reflexivity].
+  - apply (step_activate E ss s e c kv HI Hok); [destruct Hs as [Hs | Hs]; [left; exact Hs | right; destruct E; auto] | left; reflexivity].
   - apply negb_true_iff in Hok. apply (step_deactivate E ss s Deactivate HI Hok); [reflexivity | exact I].
-  - apply (step_activate E ss s e c kv HI Hok); [destruct E; auto | right; reflexivity].
+  - apply (step_activate E ss s e c kv HI Hok); [destruct Hs as [Hs | Hs]; [left; exact Hs | right; destruct E; auto] | right; reflexivity].
   - apply andb_true_iff in Hok as [Hx Hnr]. rewrite Hx. apply negb_true_iff in Hnr.
     apply (step_deactivate E ss s (CtxExit k) HI Hnr); [reflexivity | exact I].
   - apply (step_goc E ss s HI). destruct (active ss) as [[e c]|]; [|exact I]. now apply negb_true_iff in Hok.
@@ -895,12 +933,16 @@ Proof.
 Qed.
 
 Lemma run_conforms_gen : forall evs E ss s,
-  Inv E ss s -> single_engine E evs = true -> steps_ok fa en ss s evs = true ->
+  Inv E ss s -> (multi_mode fa = true \/ single_engine E evs = true) -> steps_ok fa en ss s evs = true ->
   conforms fa en ss evs (fst (run s evs)) = true.
 Proof.
   induction evs as [|ev r IH]; intros E ss s HI Hse Hok; [reflexivity|].
   cbn [Activate.run steps_ok] in *. apply andb_true_iff in Hok as [Hok1 Hok2].
-  destruct (single_engine_step _ _ _ Hse) as [Hs1 Hs2].
+  assert (Hs : (multi_mode fa = true \/ single_ok E ev)
+               /\ (multi_mode fa = true \/ single_engine (next_engine E ev) r = true)).
+  { destruct Hse as [Hm | Hse]; [split; left; exact Hm|].
+    destruct (single_engine_step _ _ _ Hse) as [Hs1 Hs2]. split; right; assumption. }
+  destruct Hs as [Hs1 Hs2].
   destruct (step_inv E ss s ev HI Hok1 Hs1) as [Hacc HI'].
   destruct (step s ev) as [o s1] eqn:Hst. cbn [fst snd] in *.
   specialize (IH _ _ _ HI' Hs2 Hok2).
@@ -913,7 +955,8 @@ Theorem run_conforms : forall evs,
   in_domain fa en evs = true -> conforms fa en sinit evs (fst (run init_state evs)) = true.
 Proof.
   intros evs H. unfold in_domain in H. apply andb_true_iff in H as [H1 H2].
-  exact (run_conforms_gen evs None sinit init_state Inv_init H1 H2).
+  apply (run_conforms_gen evs None sinit init_state Inv_init); [|exact H2].
+  apply orb_true_iff in H1 as [H1 | H1]; [right; exact H1 | left; exact H1].
 Qed.
 
 (** ** no_mixture: the same for ANY number of engines and any switching between them, for everything the property says
